@@ -1,7 +1,7 @@
 #!/bin/sh
 # usage: allchecks.sh <seed> [tier]  -- run every check once on the current tree, print one line per property
 SEED=${1:-0}; TIER=${2:-quick}
-cd /verif
+cd "$(dirname "$0")/.."
 for p in C01 C02 C03 C04 C05 C06 C07 C08 C09 C10 C11 C12 C13 C14 C15 C16 C17 C18 C19 C20; do
   s=$(date +%s)
   VERIF_SEED=$SEED ./check $p --tier $TIER > /tmp/all_$p.log 2>&1; rc=$?
